@@ -96,3 +96,57 @@ Fixpoint encode (s : sym) : tterm :=
       let body := if String.eqb name "" then TTup (map encode args) else match args with [] => TSym name | _ => TFun name (map encode args) end in
       if pos then body else TFun "-" [body]
   end.
+(* ---------------- head side: transformers/head.py, TheoryTermToTermTransformer ----------------
+   The arguments of an atom inside a HEAD formula are not looked up: they are turned into ordinary (non-ground) terms of the rewritten rule, and gringo
+   evaluates them.  Hand-written after the source; the operator names it refuses are the regenerated table (Gen/FromTables.v: py_head_table_gen). *)
+Inductive hterm := HSym (s : sym) | HVar (x : string) | HFun (name : string) (args : list hterm) | HTup (args : list hterm) | HSeq (args : list hterm).
+Inductive aterm := ASym (s : sym) | AVar (x : string) | AFun (name : string) (args : list aterm) | ANeg (t : aterm) | ABin (plus : bool) (l r : aterm).
+Definition in_head_table (name : string) : bool := existsb (fun e => String.eqb (fst (fst (fst e))) name) py_head_table_gen.
+Definition anum (t : aterm) : option Z := match t with ASym (YNum n) => Some n | _ => None end.
+Fixpoint to_term (t : hterm) : option aterm :=
+  match t with
+  | HSym s => Some (ASym s)
+  | HVar x => Some (AVar x)
+  | HSeq _ => None
+  | HTup args => option_map (AFun "") (all_some (map to_term args))
+  | HFun name args =>
+      match args with
+      | [a] =>
+          if String.eqb name "-" then option_map (fun r => match anum r with Some n => ASym (YNum (- n)) | None => ANeg r end) (to_term a)
+          else if in_head_table name then None else option_map (AFun name) (all_some (map to_term args))
+      | [a; b] =>
+          if String.eqb name "+" || String.eqb name "-" then
+            obind (to_term a) (fun l => obind (to_term b) (fun r =>
+              match anum l, anum r with
+              | Some x, Some y => Some (ASym (YNum (if String.eqb name "+" then x + y else x - y)))
+              | _, _ => Some (ABin (String.eqb name "+") l r)
+              end))
+          else if in_head_table name then None else option_map (AFun name) (all_some (map to_term args))
+      | _ => if in_head_table name then None else option_map (AFun name) (all_some (map to_term args))
+      end
+  end.
+(* how gringo evaluates a term under a substitution (contract of gringo; None = undefined, the rule instance is dropped) *)
+Fixpoint eval (sg : string -> sym) (t : aterm) : option sym :=
+  match t with
+  | ASym s => Some s
+  | AVar x => Some (sg x)
+  | AFun name args => option_map (fun l => YFun name l true) (all_some (map (eval sg) args))
+  | ANeg a => match eval sg a with Some (YNum n) => Some (YNum (- n)) | Some (YFun f l p) => Some (YFun f l (negb p)) | _ => None end
+  | ABin plus l r => match eval sg l, eval sg r with Some (YNum x), Some (YNum y) => Some (YNum (if plus then x + y else x - y)) | _, _ => None end
+  end.
+(* a ground term as it is written, and the two forms it reaches telingo in: the theory term gringo delivers for it inside a body formula, and the syntax
+   tree clingo's parser delivers for it inside a head formula *)
+Inductive wterm := WNum (n : Z) | WStr (s : string) | WConst (name : string) | WInf | WSup | WFun (name : string) (args : list wterm) | WTup (args : list wterm)
+                 | WNeg (w : wterm) | WBin (plus : bool) (l r : wterm).
+Fixpoint in_body (w : wterm) : tterm :=
+  match w with
+  | WNum n => TNum n | WStr s => TSym (quote s) | WConst c => TSym c | WInf => TSym "#inf" | WSup => TSym "#sup"
+  | WFun name args => TFun name (map in_body args) | WTup args => TTup (map in_body args)
+  | WNeg a => TFun "-" [in_body a] | WBin plus l r => TFun (if plus then "+" else "-") [in_body l; in_body r]
+  end.
+Fixpoint in_head (w : wterm) : hterm :=
+  match w with
+  | WNum n => HSym (YNum n) | WStr s => HSym (YStr s) | WConst c => HSym (YFun c [] true) | WInf => HSym YInf | WSup => HSym YSup
+  | WFun name args => HFun name (map in_head args) | WTup args => HTup (map in_head args)
+  | WNeg a => HFun "-" [in_head a] | WBin plus l r => HFun (if plus then "+" else "-") [in_head l; in_head r]
+  end.
